@@ -67,6 +67,10 @@ package interfaces
 //@   requires forall i int :: 0 <= i && i < len(vcms) ==> vcms[i] != nil && vcms[i].content != nil
 //@   ensures [one-confirmation-per-vote] len(result) == len(vcms)
 //@   ensures [every-field-copied] forall k int :: 0 <= k && k < len(vcms) ==> VoteCopied(result[k], vcms[k].content)
+// A-MB-RT (assumed at call sites, on top of the proved field-by-field copy): the bytes a header builder encodes are a
+// function of its (deep) field values, so the header built from the copy of vote k is the re-encoding ReencVC of that vote
+//@   assume [A-MB-RT.the-encoding-of-the-copied-header-is-the-reencoding-of-the-vote] forall k int :: 0 <= k && k < len(vcms) ==>
+//@     | VCHeaderBytes(result[k].SignedHeader.MessageType, result[k].SignedHeader.InstanceId, result[k].SignedHeader.BlockHeight, result[k].SignedHeader.View, result[k].SignedHeader.PreparedProof) == ReencVC(vcms[k].content.SignedHeader())
 //@   loop range vcms
 //@     invariant [so-far] len(res) == $i && (forall k int :: 0 <= k && k < $i ==> VoteCopied(res[k], vcms[k].content))
 //@   loop for
